@@ -65,7 +65,7 @@ Section Stmt.
   Definition osim (code : list instr) (ro : res (Spec.outcome fo)) (sc : list nat) (ls : list (wval fo)) : Prop :=
     match ro with
     | Ok (Next r') => exists ls', exec_l code [] ls = ONorm [] ls' /\ sim sc r' ls'
-    | Ok (Ret v) => vok ret v /\ exec_l code [] ls = ORet (wv ret v)
+    | Ok (Ret v _) => vok ret v /\ exists ls', exec_l code [] ls = ORet (wv ret v) ls'
     | Ok (Brk _) | Ok (Cont _) => False        (* cannot happen in loop-free code *)
     | RtErr => exec_l code [] ls = OTrap TDivZero
     | Unspec => True
@@ -77,18 +77,20 @@ Section Stmt.
   Proof. intros I [L S]. split; [assumption|]. intros i t Hi. apply S. apply I. assumption. Qed.
 
   Lemma check_stmt_loopish sc s sc' :
-    loop_free_stmt s = false -> check_stmt tys np ret sc s = Some sc' -> sc' = sc.
+    loop_free_stmt s = false -> check_stmt tys np ret sc s = Some sc' -> incl sc sc'.
   Proof.
-    destruct s; try discriminate; intros _ H; cbn in H;
+    destruct s; intros _ H; cbn in H;
       repeat match type of H with
              | (if ?c then _ else _) = _ => destruct c; [|discriminate]
-             end; congruence.
+             | match ?c with Some _ => _ | None => _ end = _ => destruct c; [|discriminate]
+             end;
+      inversion H; subst; try apply incl_refl; apply incl_tl, incl_refl.
   Qed.
 
   Lemma check_stmt_incl sc s sc' : check_stmt tys np ret sc s = Some sc' -> incl sc sc'.
   Proof.
     destruct (loop_free_stmt s) eqn:L.
-    2:{ intros H. rewrite (check_stmt_loopish _ _ _ L H). apply incl_refl. }
+    2:{ apply check_stmt_loopish. assumption. }
     destruct s; try discriminate; intros H; unf_in H;
       repeat match type of H with
              | (if ?c then _ else _) = _ => destruct c; [|discriminate]
@@ -99,20 +101,20 @@ Section Stmt.
 
   (* a well-typed expression in a value position: compiles, and computes its value *)
   Lemma cexpr_to_ok sc e t hint :
-    expr_ok tys sc e t = true -> sflags_expr tys hint e = [] ->
+    expr_ok tys sc e t = true -> sflags_expr tys hint e = [] -> pure_expr e = true ->
     exists c, cexpr_to tys hint e t = Some c /\
       forall r ls, sim sc r ls -> dflags fo tys r e = [] -> esim t c (eval r e) ls.
   Proof.
-    intros He Hs. unfold expr_ok in He. apply andb_true_iff in He. destruct He as [_ He].
+    intros He Hs Hp. unfold expr_ok in He. apply andb_true_iff in He. destruct He as [_ He].
     destruct (type_of tys sc e) as [t'|] eqn:Te; [|discriminate]. apply ty_eqb_eq in He. subst t'.
     destruct (sflags_expr_nil _ _ _ Hs) as (U & H & M).
-    destruct (cexpr_correct fo tys sc e hint t Te H M) as (c & Ec & Sc).
+    destruct (cexpr_correct fo tys sc e hint t Te Hp H M) as (c & Ec & Sc).
     unfold cexpr_to. rewrite (reparse_id e U), Ec, ty_eqb_refl. eauto.
   Qed.
 
   (* a condition: compiles; leaves a 32-bit register that is zero iff the value is false *)
   Lemma ccond_ok sc c :
-    cond_ok tys sc c = true -> sflags_cond tys c = [] ->
+    cond_ok tys sc c = true -> sflags_cond tys c = [] -> pure_expr c = true ->
     exists cc, ccond tys c = Some cc /\
       forall r ls, sim sc r ls -> dflags fo tys r c = [] ->
         forall st,
@@ -123,11 +125,11 @@ Section Stmt.
         | Unspec => True
         end.
   Proof.
-    intros He Hs. unfold cond_ok in He. apply andb_true_iff in He. destruct He as [_ He].
+    intros He Hs Hp. unfold cond_ok in He. apply andb_true_iff in He. destruct He as [_ He].
     destruct (type_of tys sc c) as [[it|]|] eqn:Te; try discriminate.
     unfold sflags_cond in Hs.
     destruct (sflags_expr_nil _ _ _ Hs) as (U & H & M).
-    destruct (cexpr_correct fo tys sc c None (TI it) Te H M) as (cc & Ec & Sc).
+    destruct (cexpr_correct fo tys sc c None (TI it) Te Hp H M) as (cc & Ec & Sc).
     unfold ccond. rewrite (reparse_id c U), Ec. eexists. split; [reflexivity|].
     intros r ls Hsim Hd st. specialize (Sc r ls Hsim Hd st).
     destruct (eval r c) as [[z|x]| |]; try assumption.
@@ -219,11 +221,11 @@ Section Stmt.
                 (if w =? 0 then match celo with Some e => exec_l e [] ls | None => ONorm [] ls end
                  else exec_l cth [] ls) = exec_l code [] ls ->
                 osim (cc ++ [If None cth celo] ++ tail) ro sc ls).
-    { intros ro code Ho Hn Eq. destruct ro as [[r'|v|r'|r']| |]; simpl in *; [| |contradiction|contradiction| |exact I].
+    { intros ro code Ho Hn Eq. destruct ro as [[r'|v rv|r'|r']| |]; simpl in *; [| |contradiction|contradiction| |exact I].
       - destruct Ho as (ls' & X' & S'). exists ls'. split; [|assumption].
         rewrite exec_l_app, X, exec_l_cons, exec_if, Eq, X'.
         destruct Hn as [->|Hn]; [apply exec_l_nil|]. exfalso. apply (Hn r'). reflexivity.
-      - destruct Ho as [V X']. split; [assumption|].
+      - destruct Ho as [V (lsr & X')]. split; [assumption|]. exists lsr.
         rewrite exec_l_app, X, exec_l_cons, exec_if, Eq, X'. reflexivity.
       - rewrite exec_l_app, X, exec_l_cons, exec_if, Eq, Ho. reflexivity. }
     destruct (truthy z) eqn:Tz; simpl in Ew.
@@ -249,13 +251,13 @@ Section Stmt.
   Proof.
     apply stmt_block_els_ind.
     - (* declaration *)
-      intros i t e sc sc' Hc Hs _. unf_in Hc; unf_in Hs.
+      intros i t e sc sc' Hc Hs Hp. unf_in Hc; unf_in Hs. simpl in Hp.
       destruct (Nat.leb np i && negb (existsb (Nat.eqb i) sc) &&
                 match nth_error tys i with Some t' => ty_eqb t t' | None => false end &&
                 expr_ok tys sc e t) eqn:C; [|discriminate]. injection Hc as <-.
       apply andb_true_iff in C. destruct C as [C He]. apply andb_true_iff in C. destruct C as [C Ht].
       destruct (nth_error tys i) as [t'|] eqn:Hn; [|discriminate]. apply ty_eqb_eq in Ht. subst t'.
-      destruct (cexpr_to_ok sc e t (Some t) He Hs) as (c & Ec & Sc).
+      destruct (cexpr_to_ok sc e t (Some t) He Hs Hp) as (c & Ec & Sc).
       eexists _, _. split; [intros dp lp; unf; rewrite Hn, Ec; reflexivity|].
       intros r ls Hsim Hd. unf_in Hd. split; [|discriminate].
       unf. apply (store_ok sc (i :: sc) i t c r ls); try assumption.
@@ -263,11 +265,11 @@ Section Stmt.
       + intros j [->|Hj]; auto.
       + apply Sc; assumption.
     - (* assignment *)
-      intros i e sc sc' Hc Hs _. unf_in Hc; unf_in Hs.
+      intros i e sc sc' Hc Hs Hp. unf_in Hc; unf_in Hs. simpl in Hp.
       destruct (var_ty tys sc i) as [t|] eqn:Hv; [|discriminate].
       destruct (expr_ok tys sc e t) eqn:He; [|discriminate]. injection Hc as <-.
       destruct (var_ty_spec _ _ _ Hv) as [Hi Hn]. rewrite Hn in Hs.
-      destruct (cexpr_to_ok sc e t (Some t) He Hs) as (c & Ec & Sc).
+      destruct (cexpr_to_ok sc e t (Some t) He Hs Hp) as (c & Ec & Sc).
       eexists _, _. split; [intros dp lp; unf; rewrite Hn, Ec; reflexivity|].
       intros r ls Hsim Hd. unf_in Hd. split; [|discriminate].
       unf. apply (store_ok sc sc i t c r ls); try assumption.
@@ -275,12 +277,12 @@ Section Stmt.
       + auto.
       + apply Sc; assumption.
     - (* compound assignment *)
-      intros i op e sc sc' Hc Hs _. unf_in Hc; unf_in Hs.
+      intros i op e sc sc' Hc Hs Hp. unf_in Hc; unf_in Hs. simpl in Hp.
       destruct (var_ty tys sc i) as [t|] eqn:Hv; [|discriminate].
       destruct (expr_ok tys sc e t) eqn:He; [|discriminate]. injection Hc as <-.
       destruct (var_ty_spec _ _ _ Hv) as [Hi Hn]. rewrite Hn in Hs.
       apply app_nil_inv in Hs. destruct Hs as [Hs Hfm]. apply flag_nil in Hfm.
-      destruct (cexpr_to_ok sc e t (Some t) He Hs) as (c & Ec & Sc).
+      destruct (cexpr_to_ok sc e t (Some t) He Hs Hp) as (c & Ec & Sc).
       assert (Ho : exists o, arith_op op t = Some o).
       { destruct t; [simpl; eauto|]. destruct op; simpl; eauto. discriminate. }
       destruct Ho as (o & Eo).
@@ -306,11 +308,12 @@ Section Stmt.
     - (* if *)
       intros c th Hth el Hel sc sc' Hc Hs Hlf. unf_in Hc; unf_in Hs. simpl in Hlf.
       apply andb_true_iff in Hlf. destruct Hlf as [Lth Lel].
+      apply andb_true_iff in Lth. destruct Lth as [Pc Lth].
       destruct (cond_ok tys sc c && check_block tys np ret sc th && check_els tys np ret sc el) eqn:C;
         [|discriminate]. injection Hc as <-.
       apply andb_true_iff in C. destruct C as [C Cel]. apply andb_true_iff in C. destruct C as [Cc Cth].
       apply app_nil_inv in Hs. destruct Hs as [Hsc Hs]. apply app_nil_inv in Hs. destruct Hs as [Hsth Hsel].
-      destruct (ccond_ok sc c Cc Hsc) as (cc & Ecc & Scc).
+      destruct (ccond_ok sc c Cc Hsc Pc) as (cc & Ecc & Scc).
       destruct (Hth sc Cth Hsth Lth) as (cth & dth & Eth & Sth).
       destruct (Hel sc Cel Hsel Lel) as (cel & he & dall & Eel & Sel).
       assert (G : exists code d, (forall dp lp, cstmt tys ret dp lp (SIf c th el) = Some (code, d)) /\
@@ -357,13 +360,13 @@ Section Stmt.
         * intros z Ez Tz. apply (proj2 (Bth z Ez Tz) D1).
         * intros z Ez Tz. apply (proj2 (Bel z Ez Tz) D2).
     - (* return *)
-      intros e sc sc' Hc Hs _. unf_in Hc; unf_in Hs.
+      intros e sc sc' Hc Hs Hp. unf_in Hc; unf_in Hs. simpl in Hp.
       destruct (expr_ok tys sc e ret) eqn:He; [|discriminate]. injection Hc as <-.
-      destruct (cexpr_to_ok sc e ret None He Hs) as (c & Ec & Sc).
+      destruct (cexpr_to_ok sc e ret None He Hs Hp) as (c & Ec & Sc).
       eexists _, _. split; [intros dp lp; unf; rewrite Ec; reflexivity|].
       intros r ls Hsim Hd. unf_in Hd. specialize (Sc r ls Hsim Hd []). split.
       + unf. destruct (eval r e) as [v| |]; simpl; [| |exact I].
-        * destruct Sc as [V X]. split; [assumption|].
+        * destruct Sc as [V X]. split; [assumption|]. eexists.
           rewrite exec_l_app, X, exec_l_cons, exec_return. reflexivity.
         * rewrite exec_l_app, Sc. reflexivity.
       + intros _ r'. unf. destruct (eval r e); simpl; discriminate.
@@ -373,6 +376,9 @@ Section Stmt.
     - intros i lim t start stop step b _ sc sc' _ _ H. discriminate.
     - intros sc sc' _ _ H. discriminate.
     - intros sc sc' _ _ H. discriminate.
+    - intros i t e sc sc' _ _ H. discriminate.
+    - intros i e sc sc' _ _ H. discriminate.
+    - intros i op e sc sc' _ _ H. discriminate.
     - (* empty block *)
       intros sc _ _ _. eexists _, _. split; [intros dp lp; reflexivity|].
       intros r ls Hsim _. split; [apply osim_skip; assumption|discriminate].
@@ -389,7 +395,7 @@ Section Stmt.
         eexists _, _. split; [intros dp lp; rewrite cblock_cons, Ecs; reflexivity|].
         intros r ls Hsim Hd. unf_in Hd. apply app_nil_inv in Hd. destruct Hd as [Hd1 Hd2].
         destruct (Ss r ls Hsim Hd1) as [O N]. specialize (N eq_refl).
-        unf. destruct (exec_stmt fo tys r s) as [[r'|v|r'|r']| |]; simpl in *; try contradiction.
+        unf. destruct (exec_stmt fo tys r s) as [[r'|v rv|r'|r']| |]; simpl in *; try contradiction.
         * exfalso. apply (N r'). reflexivity.
         * split; [assumption|]. intros _ r'. discriminate.
         * split; [assumption|]. intros _ r'. discriminate.
@@ -397,18 +403,18 @@ Section Stmt.
       + eexists _, _. split; [intros dp lp; rewrite cblock_cons, Ecs, Ecr; reflexivity|].
         intros r ls Hsim Hd. unf_in Hd. apply app_nil_inv in Hd. destruct Hd as [Hd1 Hd2].
         destruct (Ss r ls Hsim Hd1) as [O _].
-        unf. destruct (exec_stmt fo tys r s) as [[r'|v|r'|r']| |]; simpl in *; try contradiction.
+        unf. destruct (exec_stmt fo tys r s) as [[r'|v rv|r'|r']| |]; simpl in *; try contradiction.
         * destruct O as (ls' & X & S').
           destruct (Sr r' ls' S' Hd2) as [O' N']. split; [|assumption].
-          destruct (exec_block fo tys r' b) as [[r''|v|r''|r'']| |]; simpl in *; try contradiction.
+          destruct (exec_block fo tys r' b) as [[r''|v rv|r''|r'']| |]; simpl in *; try contradiction.
           -- destruct O' as (ls'' & X' & S''). exists ls''. split.
              ++ rewrite exec_l_app, X. assumption.
              ++ apply (sim_weaken sc sc'); assumption.
-          -- destruct O' as [V X']. split; [assumption|]. rewrite exec_l_app, X. assumption.
+          -- destruct O' as [V (lsr & X')]. split; [assumption|]. exists lsr. rewrite exec_l_app, X. assumption.
           -- rewrite exec_l_app, X. assumption.
           -- exact I.
-        * destruct O as [V X]. split; [|intros _ r'; discriminate].
-          split; [assumption|]. rewrite exec_l_app, X. reflexivity.
+        * destruct O as [V (lsr & X)]. split; [|intros _ r'; discriminate].
+          split; [assumption|]. exists lsr. rewrite exec_l_app, X. reflexivity.
         * split; [|intros _ r'; discriminate]. rewrite exec_l_app, O. reflexivity.
         * split; [exact I|intros _ r'; discriminate].
     - (* no else *)
@@ -422,9 +428,10 @@ Section Stmt.
     - (* else if *)
       intros c th Hth el Hel sc Hc Hs Hlf. unf_in Hc; unf_in Hs. simpl in Hlf.
       apply andb_true_iff in Hlf. destruct Hlf as [Lth Lel].
+      apply andb_true_iff in Lth. destruct Lth as [Pc Lth].
       apply andb_true_iff in Hc. destruct Hc as [C Cel]. apply andb_true_iff in C. destruct C as [Cc Cth].
       apply app_nil_inv in Hs. destruct Hs as [Hsc Hs]. apply app_nil_inv in Hs. destruct Hs as [Hsth Hsel].
-      destruct (ccond_ok sc c Cc Hsc) as (cc & Ecc & Scc).
+      destruct (ccond_ok sc c Cc Hsc Pc) as (cc & Ecc & Scc).
       destruct (Hth sc Cth Hsth Lth) as (cth & dth & Eth & Sth).
       destruct (Hel sc Cel Hsel Lel) as (cel & he & dall & Eel & Sel).
       eexists _, _, _. split; [intros dp lp; rewrite cels_elif, Ecc, Eth, Eel; reflexivity|].
